@@ -11,8 +11,8 @@ PROPERTY_RULES = {
     "C06": ["r_b1", "r_o3", "r_a2"],
     "C07": ["r_a12", "r_a13", "r_a2", "r_a9", "r_a11", "r_a8"],
     "C08": ["r_a11", "r_o3", "r_a2", "r_a4", "r_a8", "r_a12", "r_e2", "r_a15"],
-    "C09": ["r_c4", "r_c3", "r_c1", "r_c5", "r_c7"],
-    "C10": ["r_c2", "r_c1", "r_e1", "r_c5", "r_c7"],
+    "C09": ["r_c4", "r_c3", "r_c1", "r_c5", "r_c7", "r_c8"],
+    "C10": ["r_c2", "r_c1", "r_e1", "r_c5", "r_c7", "r_c8"],
     "C11": ["r_c2", "r_c1", "r_a6", "r_c5", "r_c4", "r_e1", "r_a8", "r_a9", "r_a16"],
     "C12": ["r_c4", "r_e1"],
     "C13": ["r_e4", "r_a6", "r_c3", "r_e1", "r_a13", "r_a16"],
@@ -20,7 +20,7 @@ PROPERTY_RULES = {
     "C15": ["r_d2", "r_d3"],
     "C16": ["r_e1", "r_e2", "r_e5"],
     "C17": ["r_c6", "r_a3", "r_c5", "r_a14", "r_a6", "r_a16"],
-    "C18": ["r_a15", "r_a2"],
+    "C18": ["r_a15", "r_a2", "r_a12"],
 }
 
 LEVEL = {"C14": "proof"}
@@ -47,11 +47,15 @@ CLAUSES = {
            "unshared branch) otherwise; try_into_mut is exactly is_unique ? Ok(into) : Err(self); every take-over re-validates uniqueness with Acquire; the reclaim helper's contract (A8), no copy on the unique conversion path (A12), parity siblings (E2); "
            "for an empty BytesMut that is alone on its allocation every path of the reservation helper that returns false or reaches an allocation is excluded when "
            "n <= allocation size (A15, linear-inequality domain)",
-    "C18": "ONLY the statement's last sentence: a reserve(n) on an empty handle that is alone on a buffer that is large enough never allocates (and try_reclaim(n) is true) - "
+    "C18": "Two structural clauses, not the quantitative bound. (1) A sole owner whose consumed prefix is at least as long as its live bytes (off >= len - the state a recycling "
+           "loop is in whenever its buffer runs out after most of it was consumed) and whose allocation can hold len + n reserves without allocating, and try_reclaim(n) is true "
+           "(A15 'recycling' mode; a reclaim test that is too strict, or keyed to the wrong quantity, leaves a path to Vec::reserve open, and the buffer then doubles at every exhaustion). "
+           "(2) The statement's last sentence: a reserve(n) on an empty handle that is alone on a buffer that is large enough never allocates (and try_reclaim(n) is true) - "
            "every control-flow path of the reservation helper that reaches Vec::reserve / Vec::with_capacity or returns false is excluded under len == 0, uniqueness and "
            "n <= allocation size, in both representations (KIND_VEC: cap + vec position; KIND_ARC: capacity of the shared Vec). And the precondition of that sentence in a recycling loop: dropping "
            "a split-off part gives its reference back exactly once on every path (A2), so that the remaining handle can become the sole owner again - a leaked reference "
-           "makes every later refill allocate. The quantitative part (peak heap and allocation counts over 10^3..10^6-round histories) is NOT decided",
+           "makes every later refill allocate; and a round trip through Bytes and back keeps the allocation - no byte-buffer allocation, copy or early release "
+           "is reachable from the unique Bytes -> BytesMut conversion (A12). The quantitative part (peak heap and allocation counts over 10^3..10^6-round histories) is NOT decided",
     "C03": "on every CFG path of every vtable/drop/conversion/duplication function the handle's reference is disposed exactly once (minted exactly once "
            "for clone); initial counts match the number of handles; consuming slots are called only on ManuallyDrop'd handles; from_owner boxes before "
            "as_ref, calls it once, unwinds into Drop; handles are merged only when they share one control block; no user code in ManuallyDrop windows",
@@ -64,7 +68,7 @@ CLAUSES = {
     "C09": "Chain touches its second half only on paths where the first is exhausted or fully accounted for (incl. chunks_vectored); "
            "Take truncates by min(inner, limit) and pairs every inner advance with limit -= same operand; the five leaf Bufs, the inherited defaults "
            "and IntoIter: remaining()/chunk() cut from one value, advance moves the cursor by exactly its argument, VecDeque lists front before back, "
-           "IntoIter yields chunk()[0] and advances by 1 exactly while bytes remain",
+           "IntoIter yields chunk()[0] and advances by 1 exactly while bytes remain; Chain::{advance, copy_to_bytes} take from the two halves amounts that add up to the request on every path (linear domain)",
     "C12": "Take/Limit: remaining = min(inner, limit), chunk truncated by the same min, guarded paired bookkeeping; Chain order for both traits; "
            "Reader/Writer transfer exactly min(available, requested), return it, never construct Err; accessors are plain field accessors, constructors store "
            "their arguments unchanged; Take::chunks_vectored bounds the inner count by dst.len()",
@@ -75,7 +79,7 @@ CLAUSES = {
            "by such a test locally or at all call sites",
     "C10": "every typed getter uses the conversion/type/byte order/width its name promises, get_X and try_get_X decode identically, "
            "error fields and cursor movement use the value width; no profile-dependent arithmetic on caller-controlled integers in the decoders; "
-           "the chunk-gathering slow path loops until the destination is full; the leaf cursors' remaining()/chunk() agree",
+           "the chunk-gathering slow path loops until the destination is full; the leaf cursors' remaining()/chunk() agree; a try_* reader that returns Err has consumed nothing on any path (own Err, `?` residual, fallible tail call: C8)",
     "C11": "every typed putter uses the conversion/type/byte order/width its name promises (be = tail, le = head slicing of the 8-byte encoding); copy loops "
            "move min(real lengths) and stop only on exhaustion; BytesMut's growth path moves the bytes in the right direction before re-basing; advance_mut after a specialised write exposes exactly bytes that a dominating write at the write cursor covered (A16)",
     "C16": "no profile-dependent arithmetic (overflow/shift asserts, explicit wrapping ops) on caller-controlled integers anywhere in the crate; the "
@@ -120,8 +124,8 @@ LEVEL_NOTE["C15"] = ("trusted: core::fmt's rendering of {} for char and {:02x}/{
                       "reference grammar, so per-byte correctness implies whole-string correctness. NOT decided: round trips through arbitrary serde (de)serializers.")
 LEVEL_NOTE["C08"] = ("trusted: rustc, std atomics; arithmetic on the analysed paths is exact (overflow-checked on the path or vouched for by E1); the allocation size of the "
                       "inline-Vec form is cap + vec position (the invariant A8 checks at every pointer move). NOT decided: truthfulness of is_unique over whole histories.")
-LEVEL_NOTE["C18"] = ("Decides one sentence of the statement ('a reserve on an empty handle that is alone on a buffer that is large enough never allocates'), which is a necessary "
-                      "condition of the property. NOT decided and not claimed: the bound on peak heap and on the number of allocations over long histories - it depends on run-time "
+LEVEL_NOTE["C18"] = ("Decides the statement's last sentence ('a reserve on an empty handle that is alone on a buffer that is large enough never allocates') and its generalisation to "
+                      "a sole owner whose dead prefix covers its live bytes; both are necessary conditions of the bound (a violating state recurs in a periodic history and the buffer grows at every exhaustion). NOT decided and not claimed: the bound on peak heap and on the number of allocations over long histories - it depends on run-time "
                       "sizes (amortisation test off >= len, doubling, original_capacity_repr) that no sound static argument in reach can bound (DESIGN.md §6 C18, §20).")
 NOT_APPLICABLE = {}
 
